@@ -475,9 +475,14 @@ class Arbiter:
 
         # do we need to change listener ?
         if old_address != self.cfg.address:
-            # close all listeners
-            for lnr in self.LISTENERS:
-                lnr.close()
+            # close all listeners, and remove the unix socket files we
+            # created for them (same rule as in stop())
+            unlink = (
+                self.reexec_pid == self.master_pid == 0
+                and not self.systemd
+                and not self.cfg.reuse_port
+            )
+            sock.close_sockets(self.LISTENERS, unlink)
             # init new listeners
             self.LISTENERS = sock.create_sockets(self.cfg, self.log)
             listeners_str = ",".join([str(lnr) for lnr in self.LISTENERS])
